@@ -52,28 +52,28 @@ theorem srv_run_first (c : SrvCfg) (pol : Policy) : ∀ (racts : List Act) (s : 
 theorem reload_of_live (c : SrvCfg) {pol : Policy} (hp : TimeIndep pol) (start : Ev) (t0 : Int) (racts : List Act)
     (now : Int) :
     let r := Runner.run c.cfg pol (Runner.init c.cfg initState t0 (some start) c.timeout) racts
-    r.outcome = none → r.st.isRunning = true → r.log ≠ [] → (∀ p ∈ r.log, p.1.persist = p.1) →
-      reload c pol (r.log.map (fun p => p.1.persist)) now =
+    r.outcome = none → r.st.isRunning = true → r.log ≠ [] → (∀ p ∈ r.log, p.1.stored = p.1) →
+      reload c pol (r.log.map (fun p => p.1.stored)) now =
         .ok (Runner.init c.cfg (roundtrip c.cfg r.st) now none c.timeout) none := by
   intro r hout hrun hne hper
   have hinv : LogInv c.cfg pol (rewind c.cfg initState t0).1 r :=
     run_logInv c.cfg pol _ racts _ (init_logInv c.cfg pol initState t0 (some start) c.timeout)
   have hrec := hinv hout
-  have hticks : r.log.map (fun p => p.1.persist) = r.log.map (·.1) :=
+  have hticks : r.log.map (fun p => p.1.stored) = r.log.map (·.1) :=
     List.map_congr_left (fun p hp' => hper p hp')
   rw [hticks]
   have hsim := replayRec_sim c.cfg hp r.log ((r.log.map (·.1)).map (fun t => (t, now))) (none : Option Cmd)
     (by simp [List.map_map, Function.comp_def]) (rewind_init_sim c.cfg t0 now)
-  rw [hrec, ← replayFrom_eq_replayRec] at hsim
-  have hat : replayAt c.cfg pol (r.log.map (·.1)) now =
-      replayFrom c.cfg pol now (r.log.map (·.1)) ((rewind c.cfg initState now).1, none) := rfl
+  rw [hrec, ← tmReplayFrom_eq_replayRec] at hsim
+  have hat : tmReplayAt c.cfg pol (r.log.map (·.1)) now =
+      tmReplayFrom c.cfg pol now (r.log.map (·.1)) ((rewind c.cfg initState now).1, none) := rfl
   unfold reload
   cases hl : r.log.map (·.1) with
   | nil => simp at hl; exact absurd hl hne
   | cons x xs =>
     simp only
     rw [← hl, hat]
-    cases hq : replayFrom c.cfg pol now (r.log.map (·.1)) ((rewind c.cfg initState now).1, none) with
+    cases hq : tmReplayFrom c.cfg pol now (r.log.map (·.1)) ((rewind c.cfg initState now).1, none) with
     | none => rw [hq] at hsim; exact absurd hsim (by simp)
     | some be =>
       obtain ⟨b, e⟩ := be
